@@ -145,8 +145,7 @@ func init() {
 			return Iface{}
 		}
 	}
-	reg("encoding/json.Marshal", marshal("json"))
-	reg("encoding/json.Unmarshal", unmarshal("json"))
+	// encoding/json itself is modelled structurally (jsonmodel.go)
 	reg("github.com/nikkolasg/hexjson.Marshal", marshal("json"))
 	reg("github.com/nikkolasg/hexjson.Unmarshal", unmarshal("json"))
 	reg("github.com/BurntSushi/toml.Unmarshal", unmarshal("toml"))
